@@ -21,6 +21,7 @@ import (
 
 	acipfs "berty.tech/go-orbit-db/accesscontroller/ipfs"
 	acsimple "berty.tech/go-orbit-db/accesscontroller/simple"
+	cid "github.com/ipfs/go-cid"
 	coreiface "github.com/ipfs/kubo/core/coreiface"
 	"github.com/libp2p/go-libp2p/core/peer"
 )
@@ -399,6 +400,11 @@ func sysHead(logID string, writer string, k int, victim ipfslog.Entry) *entry.En
 	return e
 }
 
+type sysIllTypedHeads struct {
+	Address int            `json:"address"`
+	Heads   []*entry.Entry `json:"heads"`
+}
+
 type sysIllTyped struct {
 	Address int    `json:"address"`
 	Heads   string `json:"heads"`
@@ -461,7 +467,17 @@ func VerifSysMalformed() {
 	var payload []byte
 	var err error
 	foreignForA := false
-	switch vstub.NdChoice("payload", 5) {
+	switch vstub.NdChoice("payload", 6) {
+	case 5:
+		// ILL-TYPED but with well-formed head objects inside (a number where the address
+		// string belongs; a head carrying a next link): decoding reports a type error
+		// after having filled in what it could - nothing of it may stick to the decoding
+		// of the NEXT message (the honest relay's head has no next link)
+		payload, err = json.Marshal(&sysIllTypedHeads{Address: 42, Heads: []*entry.Entry{{
+			LogID: addrA, Payload: []byte("x"), Next: []cid.Cid{first.GetHash()}, Refs: []cid.Cid{first.GetHash()},
+			Clock: entry.NewLamportClock(a.env.Identity.PublicKey, 2), V: 2, Key: a.env.Identity.PublicKey,
+		}}})
+		vstub.Cover("ill-typed-with-heads")
 	case 4:
 		// a VALID entry written for database B (by a writer both databases accept), sent
 		// in a message that names database A
